@@ -95,6 +95,7 @@ class _Normalise(ast.NodeTransformer):
       N1  <constant> op x        ->  x flipped-op <constant>        (single comparisons)
       N2  if not c: A else: B    ->  if c: B else: A                 (else present, not an elif)
       N4  x = E; return x        ->  return E                        (consecutive statements)
+      N6  not (a and b) -> not a or not b ;  not (a or b) -> not a and not b
       N3  not not c -> c   (`not a == b` is NOT rewritten to `a != b`: user-defined __ne__ may differ)
     Line numbers of the statements are kept."""
     FLIP = {ast.Eq: ast.Eq, ast.NotEq: ast.NotEq, ast.Lt: ast.Gt, ast.Gt: ast.Lt, ast.LtE: ast.GtE, ast.GtE: ast.LtE}
@@ -111,6 +112,10 @@ class _Normalise(ast.NodeTransformer):
             o = n.operand
             if isinstance(o, ast.UnaryOp) and isinstance(o.op, ast.Not) and isinstance(o.operand, (ast.Compare, ast.BoolOp, ast.UnaryOp)):
                 return o.operand
+            if isinstance(o, ast.BoolOp):
+                # N6 De Morgan: not (a and b) -> not a or not b ; not (a or b) -> not a and not b
+                parts = [self.visit_UnaryOp(ast.copy_location(ast.UnaryOp(ast.Not(), v), v)) for v in o.values]
+                return ast.copy_location(ast.BoolOp(ast.Or() if isinstance(o.op, ast.And) else ast.And(), parts), n)
         return n
 
     def _fold_returns(self, stmts):
